@@ -7,6 +7,23 @@ __all__ = ("Props", "PropsType",)
 PropsType = TypeVar("PropsType", bound="Props")
 
 
+def _is_equal(left: Any, right: Any) -> bool:
+    # structural comparison of prop values: a schema nested in a prop value (list of elements,
+    # key table, alternatives) only ever equals another schema, never a marker such as `...`
+    # or Nil that merely validates against it
+    from .types import Schema
+
+    if isinstance(left, (list, tuple)) and isinstance(right, (list, tuple)):
+        return (type(left) is type(right)) and (len(left) == len(right)) and \
+            all(_is_equal(x, y) for x, y in zip(left, right))
+    if isinstance(left, dict) and isinstance(right, dict):
+        return (left.keys() == right.keys()) and \
+            all(_is_equal(val, right[key]) for key, val in left.items())
+    if isinstance(left, Schema) != isinstance(right, Schema):
+        return False
+    return bool(left == right)
+
+
 class Props:
     def __init__(self, registry: Nilable[Mapping[str, Any]] = Nil) -> None:
         self._registry = registry if (registry is not Nil) else {}
@@ -34,12 +51,12 @@ class Props:
 
         for key, val in self._registry.items():
             other_val = other.get(key)
-            if val != other_val:
+            if not _is_equal(val, other_val):
                 return False
 
         for key, other_val in other._registry.items():
             val = self.get(key)
-            if other_val != val:
+            if not _is_equal(other_val, val):
                 return False
 
         return True
